@@ -214,6 +214,26 @@ PROPS = {
         "assumptions": ["requests are driven in-process: the body reader is not limited to Content-Length bytes as a real net/http server would do"],
         "timeout": {"quick": 900, "thorough": 3000},
     },
+    "C10": {
+        "title": "Buckets and keys are independent namespaces; internals are not addressable",
+        "harness": "c10",
+        "model": "Model/Mem.v + Model/Handlers.v (keys are opaque byte strings; unknown buckets answer NoSuchBucket) for memory and bolt; model-free frame oracle for every backend",
+        "rule": "per backend: 6 (quick) / 60 (thorough) seeded histories of 40/60 operations (put, delete, get, copy, multi-delete, "
+                "create/delete bucket, list) addressed to three buckets and to the names _meta, '.', '..', metadata, with 25 hostile keys "
+                "(.., ../bkb/a, ../../buckets_evil/x, a//b, ./a, a/./b, a/../n, leading dots, backslash, %2e%2e, names of internal files "
+                "and buckets, keys that are path-prefixes of other keys, UTF-8, a 254-byte segment). After every operation a snapshot of "
+                "every probe (HEAD + listing of 7 bucket names, GET of every hostile key in each, the bucket list and, for real-directory "
+                "backends, every file on disk classified by bucket root) is compared with the snapshot before by the frame oracle: "
+                "only entries of the addressed (bucket, key) may change, a refused operation may change nothing, no file may appear "
+                "outside the addressed bucket's roots. Memory and bolt are additionally stepped against the model. "
+                "distinct_nontrivial = distinct (backend, bucket, key, status).",
+        "explanation": "Theorems: frame laws of the model (an operation addressed to (bucket, key) changes no other (bucket, key); keys "
+                       "that differ as byte strings are different objects; an unknown bucket name is never served). Tie: model "
+                       "comparison on the opaque-key backends; the model-free frame oracle (extracted from Coq) on the observations "
+                       "of all six backends incl. the on-disk tree.",
+        "assumptions": ["fs backends may refuse a key; a refusal must leave everything unchanged"],
+        "timeout": {"quick": 900, "thorough": 3000},
+    },
 }
 
 # properties whose check is not built yet are listed so the manifest stays honest
